@@ -85,14 +85,24 @@ def binCount (bks : List (List CBin)) : Nat := (bks.map fun bkt => (bkt.map (·.
 /-- number of bins -/
 def binNumber (bks : List (List CBin)) : Nat := (bks.map List.length).sum
 
-structure CuckooWF (c : Cuckoo) : Prop where
+/-- the table part of the cuckoo well-formedness: implied by the table invariant of reachable
+    states (property C15) together with "no stored fingerprint is 0" -/
+structure CuckooTableWF (c : Cuckoo) : Prop where
   cap : c.buckets.length = c.cap
   bpos : 0 < c.b
-  blt : c.b < 2 ^ 32
-  swaps : c.maxSwaps < 2 ^ 32
-  bkts : ∀ bkt ∈ c.buckets, bkt.length ≤ c.b ∧ ∀ bin ∈ bkt, BinOK c.counting bin
+  bkts : ∀ bkt ∈ c.buckets, bkt.length ≤ c.b ∧
+    ∀ bin ∈ bkt, 0 < bin.1 ∧ (c.counting = false → bin.2 = 1)
+
+/-- table part plus the bookkeeping of the two element counters -/
+structure CuckooWF (c : Cuckoo) : Prop extends CuckooTableWF c where
   count : c.count = (binCount c.buckets : Int)
   unique : c.unique = if c.counting then (binNumber c.buckets : Int) else 0
+
+/-- everything fits its 32-bit field (otherwise `export` raises) -/
+structure CuckooFits (c : Cuckoo) : Prop where
+  blt : c.b < 2 ^ 32
+  swaps : c.maxSwaps < 2 ^ 32
+  bins : ∀ bkt ∈ c.buckets, ∀ bin ∈ bkt, bin.1 < 2 ^ 32 ∧ bin.2 < 2 ^ 32
 
 /-! ## Bloom filter -/
 
@@ -445,24 +455,51 @@ private theorem cuckoo_export_eq (c : Cuckoo) : c.exportBytes =
       | .ok f => .ok (c.buckets.flatMap (bucketBytes c.counting c.b) ++ f)
       | .error e => .error e := rfl
 
-theorem C05_cuckoo_export_ok (c : Cuckoo) (wf : CuckooWF c) : ∃ bytes, c.exportBytes = .ok bytes := by
-  have h1 := wf.blt; have h2 := wf.swaps
+theorem C05_cuckoo_export_ok (c : Cuckoo) (fits : CuckooFits c) : ∃ bytes, c.exportBytes = .ok bytes := by
+  have h1 := fits.blt; have h2 := fits.swaps
   rw [cuckoo_export_eq, if_neg]
   · rw [cuckooFooter_pack, if_neg (by omega), if_neg (by omega)]
     exact ⟨_, rfl⟩
   · simp only [List.any_eq_true, decide_eq_true_eq, not_exists, not_and]
     intro bkt hbkt bin hbin
-    obtain ⟨_, hb1, hb2, _⟩ := (wf.bkts bkt hbkt).2 bin hbin
+    have := fits.bins bkt hbkt bin hbin
     omega
 
-/-- what the format does not store (`rate`, `auto`, `fpBits`, and which of the two classes) comes
-    from the `template` the caller constructs -/
-theorem C05_cuckoo_roundtrip (template c : Cuckoo) (bytes : Bytes) (wf : CuckooWF c)
+/-- conversely a successful export means everything fitted -/
+theorem C05_cuckoo_export_fits (c : Cuckoo) (bytes : Bytes) (h : c.exportBytes = .ok bytes) : CuckooFits c := by
+  rw [cuckoo_export_eq] at h
+  split at h
+  · cases h
+  · rename_i hany
+    rw [cuckooFooter_pack] at h
+    have hbins : ∀ bkt ∈ c.buckets, ∀ bin ∈ bkt, bin.1 < 2 ^ 32 ∧ bin.2 < 2 ^ 32 := by
+      simp only [List.any_eq_true, decide_eq_true_eq, not_exists, not_and] at hany
+      intro bkt hbkt bin hbin
+      have := hany bkt hbkt bin hbin
+      omega
+    by_cases h1 : (c.b : Int) < 0 ∨ (c.b : Int) > 4294967295
+    · rw [if_pos h1] at h; cases h
+    · by_cases h2 : (c.maxSwaps : Int) < 0 ∨ (c.maxSwaps : Int) > 4294967295
+      · rw [if_neg h1, if_pos h2] at h; cases h
+      · exact ⟨by omega, by omega, hbins⟩
+
+/-- the table, the bucket size and the swap limit come back; the two element counters are
+    recomputed from the table.  What the format does not store (`rate`, `auto`, `fpBits`, and which
+    of the two classes) comes from the `template` the caller constructs -/
+theorem C05_cuckoo_roundtrip_table (template c : Cuckoo) (bytes : Bytes) (wf : CuckooTableWF c)
     (ht : template.counting = c.counting)
     (h : c.exportBytes = .ok bytes) :
     Cuckoo.load template bytes =
       .ok { template with cap := c.cap, b := c.b, maxSwaps := c.maxSwaps, buckets := c.buckets,
-                          count := c.count, unique := c.unique } := by
+                          count := (binCount c.buckets : Int),
+                          unique := if c.counting then (binNumber c.buckets : Int) else 0 } := by
+  have fits := C05_cuckoo_export_fits c bytes h
+  have hbk : ∀ bkt ∈ c.buckets, bkt.length ≤ c.b ∧ ∀ bin ∈ bkt, BinOK c.counting bin := by
+    intro bkt hbkt
+    refine ⟨(wf.bkts bkt hbkt).1, fun bin hbin => ?_⟩
+    have h1 := (wf.bkts bkt hbkt).2 bin hbin
+    have h2 := fits.bins bkt hbkt bin hbin
+    exact ⟨h1.1, h2.1, h2.2, h1.2⟩
   rw [cuckoo_export_eq] at h
   split at h
   · cases h
@@ -484,30 +521,51 @@ theorem C05_cuckoo_roundtrip (template c : Cuckoo) (bytes : Bytes) (wf : CuckooW
         have : cuckooW c.counting = if c.counting = true then 8 else 4 := rfl
         rw [← this]
         exact Nat.mul_div_cancel _ (Nat.mul_pos (by unfold cuckooW; split <;> decide) hbpos)
-      rw [hcap, parseBuckets_body c.counting c.b c.buckets f wf.bkts]
-      have hc := wf.count; have hu := wf.unique
-      unfold binCount at hc; unfold binNumber at hu
-      rw [← hc, ← wf.cap]
-      congr 2
-      rw [hu]
+      rw [hcap, parseBuckets_body c.counting c.b c.buckets f hbk, wf.cap]
+      rfl
     · cases h
+
+/-- with the counters' bookkeeping (`count = Σ counts`, `unique = number of bins`) the loaded
+    filter has the same counters -/
+theorem C05_cuckoo_roundtrip (template c : Cuckoo) (bytes : Bytes) (wf : CuckooWF c)
+    (ht : template.counting = c.counting)
+    (h : c.exportBytes = .ok bytes) :
+    Cuckoo.load template bytes =
+      .ok { template with cap := c.cap, b := c.b, maxSwaps := c.maxSwaps, buckets := c.buckets,
+                          count := c.count, unique := c.unique } := by
+  rw [C05_cuckoo_roundtrip_table template c bytes wf.toCuckooTableWF ht h, wf.count, wf.unique]
 
 /-- re-supplying the filter's own settings gives the filter back -/
 theorem C05_cuckoo_roundtrip_self (c : Cuckoo) (bytes : Bytes) (wf : CuckooWF c)
     (h : c.exportBytes = .ok bytes) : Cuckoo.load c bytes = .ok c :=
   C05_cuckoo_roundtrip c c bytes wf rfl h
 
-theorem C05_cuckoo_stable (template c : Cuckoo) (bytes : Bytes) (wf : CuckooWF c)
+theorem C05_cuckoo_stable (template c : Cuckoo) (bytes : Bytes) (wf : CuckooTableWF c)
     (ht : template.counting = c.counting) (h : c.exportBytes = .ok bytes) :
     ∃ c', Cuckoo.load template bytes = .ok c' ∧ c'.exportBytes = .ok bytes := by
-  refine ⟨_, C05_cuckoo_roundtrip template c bytes wf ht h, ?_⟩
+  refine ⟨_, C05_cuckoo_roundtrip_table template c bytes wf ht h, ?_⟩
   rw [cuckoo_export_eq] at h ⊢
   simpa [ht] using h
 
+/-- the reloaded table is again well formed (so it can be exported and reloaded again, and the
+    structural clauses of the table invariant C15 carry over to loaded filters) -/
+theorem C05_cuckoo_loaded_wf (template c c' : Cuckoo) (bytes : Bytes) (wf : CuckooTableWF c)
+    (ht : template.counting = c.counting) (h : c.exportBytes = .ok bytes)
+    (hl : Cuckoo.load template bytes = .ok c') :
+    CuckooWF c' ∧ c'.buckets = c.buckets ∧ c'.cap = c.cap ∧ c'.b = c.b ∧ c'.maxSwaps = c.maxSwaps ∧
+      c'.rate = template.rate ∧ c'.auto = template.auto ∧ c'.fpBits = template.fpBits ∧
+      c'.counting = template.counting := by
+  rw [C05_cuckoo_roundtrip_table template c bytes wf ht h] at hl
+  injection hl with hl
+  subst hl
+  refine ⟨⟨⟨wf.cap, wf.bpos, ?_⟩, rfl, ?_⟩, rfl, rfl, rfl, rfl, rfl, rfl, rfl, rfl⟩
+  · simpa [ht] using wf.bkts
+  · simp [ht]
+
 theorem C05_cuckoo_new_wf (counting : Bool) (cap b maxSwaps rate : Nat) (auto : Bool) (fpBits : Nat)
-    (hb0 : 0 < b) (hb : b < 2 ^ 32) (hs : maxSwaps < 2 ^ 32) :
+    (hb0 : 0 < b) :
     CuckooWF (Cuckoo.new counting cap b maxSwaps rate auto fpBits) := by
-  refine ⟨by simp [Cuckoo.new], hb0, hb, hs, ?_, ?_, ?_⟩
+  refine ⟨⟨by simp [Cuckoo.new], hb0, ?_⟩, ?_, ?_⟩
   · intro bkt hbkt
     simp only [Cuckoo.new, List.mem_replicate] at hbkt
     rw [hbkt.2]; simp
@@ -543,11 +601,11 @@ example : CMS.load .mean (s23.exportBytes.toOption.getD []) = .ok s23 := by rfl
 
 /-- partially filled buckets, an empty bucket, a full bucket -/
 private def k3 : Cuckoo := ⟨false, 3, 2, 500, 2, true, 8, [[(7, 1)], [], [(255, 1), (1, 1)]], 3, 0⟩
-example : CuckooWF k3 := ⟨rfl, by decide, by decide, by decide, by decide, by decide, by decide⟩
+example : CuckooWF k3 := ⟨⟨rfl, by decide, by decide⟩, by decide, by decide⟩
 example : Cuckoo.load k3 (k3.exportBytes.toOption.getD []) = .ok k3 := by rfl
 
 private def kc3 : Cuckoo := ⟨true, 3, 2, 500, 2, true, 8, [[(7, 4)], [], [(255, 1), (1, 9)]], 14, 3⟩
-example : CuckooWF kc3 := ⟨rfl, by decide, by decide, by decide, by decide, by decide, by decide⟩
+example : CuckooWF kc3 := ⟨⟨rfl, by decide, by decide⟩, by decide, by decide⟩
 example : Cuckoo.load kc3 (kc3.exportBytes.toOption.getD []) = .ok kc3 := by rfl
 
 /-- the excluded case is real: a stored fingerprint 0 (impossible in the fixed code) is lost -/
